@@ -2,7 +2,7 @@ SPECIFICATION Spec
 CONSTANTS
   L = 8
   TolU = 2
-  TmidMax = 24
+  TmidMax = 20
   MaxN = 4
   UseTol = TRUE
   Side = "left"
